@@ -624,6 +624,7 @@ namespace mc
     static std::unique_ptr<Model> bfs_build(const std::vector<uint16_t> &h)
     {
         g_bfs_replaying = true;
+        case_viol = false; // a state rebuild is never 'in' the previous transition's case
         std::unique_ptr<Model> m = cur->factory();
         for (size_t i = 0; i < h.size(); i++)
             if (!m->apply(h[i]))
